@@ -63,9 +63,25 @@ inline bool deliver_F(Rng& r, uint64_t idx)
                              }
                            });
   }
+  // one scenario in four: the backend is stopped and started again while the threads are still logging (statements
+  // logged meanwhile wait in their queues; threads that existed before the restart are served by the new backend run)
+  uint32_t restarts = 0;
+  if (r.chance(1, 4))
+  {
+    uint32_t const nr = static_cast<uint32_t>(r.range(1, 3));
+    for (uint32_t k = 0; k < nr; ++k)
+    {
+      std::this_thread::sleep_for(std::chrono::microseconds(r.range(50, 1500)));
+      quill::Backend::stop();
+      std::this_thread::sleep_for(std::chrono::microseconds(r.below(300)));
+      quill::Backend::start(w.bo);
+      ++restarts;
+    }
+  }
   for (auto& t : ts) t.th.join();
   quill::Backend::stop();
   g_delay.store(0);
+  stat_add("deliver_backend_restarts_while_threads_log", restarts);
   std::vector<Issue> all;
   for (auto& t : ts) all.insert(all.end(), t.issues.begin(), t.issues.end());
   auto evs = recorder().snapshot();
